@@ -1,5 +1,6 @@
 import D2V.Model.Fmt
 import D2V.Proofs.FmtFix
+import D2V.Proofs.FmtAst
 /-!
 C03 — Formatting is idempotent.
 
@@ -85,6 +86,32 @@ theorem C03_cx_empty_cascade : fmtFile (normFile cxEmptyCascade) ≠ fmtFile cxE
 def cxKeyCase : N := .map false [kn false true "x" (.map false [kn false false "Steps" .absent])]
 
 theorem C03_cx_board_keyword_case : fmtFile (normFile cxKeyCase) ≠ fmtFile cxKeyCase := by decide
+
+/-! ### the AST → AST rewrite in isolation -/
+
+/-- `boardsLast` is a normal form (idempotent) on trees in which no board node is dropped -/
+theorem boardsLast_idem_partial (a : N) (h : noDrop a = true) : boardsLast (boardsLast a) = boardsLast a :=
+  boardsLast_idem a h
+
+example : noDrop exStable = true := by decide
+
+/-- `norm = lowerKeywords ∘ boardsLast` (what Parse ∘ Format does to a layout-free AST) is a normal form -/
+theorem C03_idempotent_ast_partial (a : N) (h1 : noDrop a = true) (h2 : noKeyCase (boardsLast a) = true) :
+    norm (norm a) = norm a := norm_idem a h1 h2
+
+example : noKeyCase (boardsLast exStable) = true := by decide
+
+/-- the first declaration of a file has no value (decidable view for the counterexample below) -/
+def firstValAbsent : N → Bool
+  | .map _ (.mnode _ _ (.key _ _ .absent) :: _) => true
+  | _ => false
+
+/-- … and not in general: `a: {layers}` → `a: {}` → `a` -/
+theorem boardsLast_not_idem : boardsLast (boardsLast cxEmptyCascade) ≠ boardsLast cxEmptyCascade := by
+  intro h
+  have := congrArg firstValAbsent h
+  revert this
+  decide
 
 theorem C03_full_statement_false : ¬ C03_full_statement := fun h => C03_cx_board_not_last (h _)
 
